@@ -1,6 +1,6 @@
 (** Model of Qremote's connection set-up around STARTTLS (property C18):
     lib/netio.c (net_read with fatal = 0 over the buffer [lineinn] that clear text
-    and TLS share, data_pending), qremote/reply.c (netget(0)), qremote/greeting.c
+    and TLS share, drop_stale_input), qremote/reply.c (netget(0)), qremote/greeting.c
     (greeting, esmtp_check_extension and its callbacks), qremote/starttlsr.c
     (tls_init), qremote/conn_mx.c (connect_mx, quitmsg_if_net, connection_died),
     qremote/qremote.c (quitmsg, net_conn_shutdown, the part of main() around
@@ -11,14 +11,12 @@
     whether the pinned certificate loads and what SSL_dane_tlsa_add answers.
     The clear-text network of a connection is a list of segments ([c_pre]); what
     is still unread when the handshake starts is eaten by the handshake, after a
-    failed handshake the segments [c_post] follow.  [c_early] answers the one
-    timing question the code asks: has what follows the STARTTLS reply already
-    arrived when data_pending() polls with timeout 0.
+    failed handshake the segments [c_post] follow.
 
     Every MX of the case is one connection attempt (one address per MX).
     Switches that say which code exists come from Gen/GenStarttls.v:
-    [ST_CHECKS_PENDING], [ST_QUITMSG_RESETS_ROUTE], [ST_QIN_FREES_SSL],
-    [ST_PINNED_NEEDS_TLS]. *)
+    [ST_PURGES] (lib/netio.c drops input buffered under another TLS state),
+    [ST_QUITMSG_RESETS_ROUTE], [ST_QIN_FREES_SSL], [ST_PINNED_NEEDS_TLS]. *)
 From Qv Require Import Common.Bytes Gen.GenNetio Gen.GenQremote Gen.GenStarttls Model.NetRead.
 Local Open Scope bool_scope.
 
@@ -27,7 +25,6 @@ Record conn := mkConn {
   c_named : bool;             (* the MX entry has a name: partner_fqdn != NULL *)
   c_pinfile : bool;           (* stat("control/tlshosts/<fqdn>.pem") == 0 *)
   c_pinload : bool;           (* SSL_CTX_load_verify_locations() succeeds *)
-  c_early : bool;             (* see above *)
   c_tlsa : list (N * Z);      (* TLSA records of this host: cert_usage, result of SSL_dane_tlsa_add *)
   c_hs : N;                   (* ssl_timeoutconn: 0 = success, else the errno (ST_E...) *)
   c_verify : N;               (* SSL_get_verify_result, 0 = X509_V_OK *)
@@ -114,6 +111,7 @@ Inductive ev :=
 (* ------------------------------------------------------------------ program state *)
 Record st := mkSt {
   s_inn : bytes;        (* lineinn[0 .. linenlen): survives connections *)
+  s_innssl : bool;      (* linenssl != NULL: the TLS state the buffered bytes were received under *)
   s_clr : env;          (* clear-text network of the current connection *)
   s_tls : env;          (* what SSL_read will deliver on the current connection *)
   s_ssl : bool;         (* ssl != NULL *)
@@ -126,22 +124,27 @@ Record st := mkSt {
 }.
 
 Definition upd_net (s : st) (i : bytes) (e : env) : st :=
-  if s_ssl s then mkSt i (s_clr s) e (s_ssl s) (s_sock s) (s_linein s) (s_xtls s) (s_rcert s) (s_tr s) (s_rpt s)
-  else mkSt i e (s_tls s) (s_ssl s) (s_sock s) (s_linein s) (s_xtls s) (s_rcert s) (s_tr s) (s_rpt s).
+  if s_ssl s then mkSt i (s_innssl s) (s_clr s) e (s_ssl s) (s_sock s) (s_linein s) (s_xtls s) (s_rcert s) (s_tr s) (s_rpt s)
+  else mkSt i (s_innssl s) e (s_tls s) (s_ssl s) (s_sock s) (s_linein s) (s_xtls s) (s_rcert s) (s_tr s) (s_rpt s).
 Definition log (e : ev) (s : st) : st :=
-  mkSt (s_inn s) (s_clr s) (s_tls s) (s_ssl s) (s_sock s) (s_linein s) (s_xtls s) (s_rcert s) (s_tr s ++ [e]) (s_rpt s).
+  mkSt (s_inn s) (s_innssl s) (s_clr s) (s_tls s) (s_ssl s) (s_sock s) (s_linein s) (s_xtls s) (s_rcert s) (s_tr s ++ [e]) (s_rpt s).
 Definition report (w : bytes) (s : st) : st :=
-  mkSt (s_inn s) (s_clr s) (s_tls s) (s_ssl s) (s_sock s) (s_linein s) (s_xtls s) (s_rcert s) (s_tr s) (s_rpt s ++ [w]).
+  mkSt (s_inn s) (s_innssl s) (s_clr s) (s_tls s) (s_ssl s) (s_sock s) (s_linein s) (s_xtls s) (s_rcert s) (s_tr s) (s_rpt s ++ [w]).
 Definition set_linein (l : bytes) (s : st) : st :=
-  mkSt (s_inn s) (s_clr s) (s_tls s) (s_ssl s) (s_sock s) l (s_xtls s) (s_rcert s) (s_tr s) (s_rpt s).
+  mkSt (s_inn s) (s_innssl s) (s_clr s) (s_tls s) (s_ssl s) (s_sock s) l (s_xtls s) (s_rcert s) (s_tr s) (s_rpt s).
 Definition set_conn (ssl sock : bool) (s : st) : st :=
-  mkSt (s_inn s) (s_clr s) (s_tls s) ssl sock (s_linein s) (s_xtls s) (s_rcert s) (s_tr s) (s_rpt s).
+  mkSt (s_inn s) (s_innssl s) (s_clr s) (s_tls s) ssl sock (s_linein s) (s_xtls s) (s_rcert s) (s_tr s) (s_rpt s).
 Definition set_route (x r : bool) (s : st) : st :=
-  mkSt (s_inn s) (s_clr s) (s_tls s) (s_ssl s) (s_sock s) (s_linein s) x r (s_tr s) (s_rpt s).
+  mkSt (s_inn s) (s_innssl s) (s_clr s) (s_tls s) (s_ssl s) (s_sock s) (s_linein s) x r (s_tr s) (s_rpt s).
 Definition set_clr (i : bytes) (e : env) (s : st) : st :=
-  mkSt i e (s_tls s) (s_ssl s) (s_sock s) (s_linein s) (s_xtls s) (s_rcert s) (s_tr s) (s_rpt s).
+  mkSt i (s_innssl s) e (s_tls s) (s_ssl s) (s_sock s) (s_linein s) (s_xtls s) (s_rcert s) (s_tr s) (s_rpt s).
+(** drop_stale_input() *)
+Definition purge (s : st) : st :=
+  if ST_PURGES && negb (Bool.eqb (s_innssl s) (s_ssl s))
+  then mkSt [] (s_ssl s) (s_clr s) (s_tls s) (s_ssl s) (s_sock s) (s_linein s) (s_xtls s) (s_rcert s) (s_tr s) (s_rpt s)
+  else s.
 Definition open_conn (c : conn) (s : st) : st :=
-  mkSt (s_inn s) {| cur := []; future := c_pre c |} {| cur := []; future := c_tls c |} (s_ssl s) true
+  mkSt (s_inn s) (s_innssl s) {| cur := []; future := c_pre c |} {| cur := []; future := c_tls c |} (s_ssl s) true
        (s_linein s) (s_xtls s) (s_rcert s) (s_tr s) (s_rpt s).
 
 Definition chan (s : st) : env := if s_ssl s then s_tls s else s_clr s.
@@ -172,32 +175,15 @@ Definition nwrite (b : bytes) (s : st) : st := log (EvW (s_ssl s) b) s.
 (** dieerror(ECONNRESET): report, net_conn_shutdown(shutdown_abort) *)
 Definition die (s : st) : st := set_conn false false (report ST_RPT_DIED s).
 
-(** net_read(0) *)
-Definition nread (s : st) : res ritem :=
+(** net_read(0): input buffered under another TLS state is dropped first *)
+Definition nread (s0 : st) : res ritem :=
+  let s := purge s0 in
   let '(it, r) := net_read2 {| inn := s_inn s; en := chan s |} in
   let s1 := upd_net s (inn r) (en r) in
   match it with
   | RDie => Exit (die s1)
   | RStuck => Stuck s1
   | _ => Ret it (log (EvR (s_ssl s) it (length (inn r) + length (rest (en r)))) s1)
-  end.
-
-(** data_pending(NULL): the buffer, else poll(fd 0, timeout 0) and read() of one byte *)
-Definition data_pending (early : bool) (s : st) : Z * st :=
-  match s_inn s with
-  | _ :: _ => (1%Z, s)
-  | [] =>
-      let e := s_clr s in
-      match cur e with
-      | b :: c' => (1%Z, set_clr [b] {| cur := c'; future := future e |} s)
-      | [] =>
-          if early then
-            match next_segment (future e) with
-            | Some (b :: c', f) => (1%Z, set_clr [b] {| cur := c'; future := f |} s)
-            | _ => ((- Z.of_N ST_ECONNRESET)%Z, s)
-            end
-          else (0%Z, s)
-      end
   end.
 
 (* ------------------------------------------------------------------ reply.c: netget(0) *)
@@ -439,11 +425,8 @@ Definition tls_init (c : conn) (tlsa : list (N * Z)) (s : st) : res Z :=
       rdo (i, s2) <- tls_reply_loop (S (avail s1)) i0 s1;
       if negb (Z.eqb i ST_STARTTLS_OK) then Ret (if (i <? 0)%Z then (- i)%Z else Z.of_N ST_EDONE) s2
       else
-        let '(p, s3) := if ST_CHECKS_PENDING then data_pending (c_early c) s2 else (0%Z, s2) in
-        if negb (Z.eqb p 0) then Ret (if (p <? 0)%Z then (- p)%Z else Z.of_N ST_EDONE) s3
-        else
-          (* ssl_timeoutconn(): what was still coming in clear is gone *)
-          let s4 := log (EvHs (length (s_inn s3)) (c_hs c)) (set_clr (s_inn s3) {| cur := []; future := c_post c |} s3) in
+          (* ssl_timeoutconn(): what was still coming in clear is gone; lineinn is not touched *)
+          let s4 := log (EvHs (length (s_inn s2)) (c_hs c)) (set_clr (s_inn s2) {| cur := []; future := c_post c |} s2) in
           if negb (N.eqb (c_hs c) 0) then Ret (Z.of_N (c_hs c)) s4
           else
             let s5 := set_conn true (s_sock s4) s4 in
@@ -469,18 +452,18 @@ Fixpoint banner_loop (fuel : nat) (sc : Z) (flagerr : bool) (s : st) : res (Z * 
     end
   else Ret (sc, flagerr) s.
 
-(** one pass through the body of the do-while: true = a usable connection (socketd >= 0) *)
-Definition conn_iter (k : nat) (c : conn) (tlsa : list (N * Z)) (s : st) : res bool :=
+(** one pass through the body of the do-while: Some smtpext = a usable connection (socketd >= 0) *)
+Definition conn_iter (k : nat) (c : conn) (tlsa : list (N * Z)) (s : st) : res (option Z) :=
   let s := log (EvConn k) (open_conn c s) in
-  let next (m : res unit) : res bool := rdo (_, s') <- m; Ret false s' in
+  let next (m : res unit) : res (option Z) := rdo (_, s') <- m; Ret None s' in
   rdo (sc0, s1) <- netget0 s;
-  if (sc0 <? 0)%Z && Z.eqb sc0 (neg ST_ECONNRESET) then Ret false (connection_died s1)
+  if (sc0 <? 0)%Z && Z.eqb sc0 (neg ST_ECONNRESET) then Ret None (connection_died s1)
   else if (sc0 <? 0)%Z && Z.eqb sc0 (neg ST_EINVAL) then next (quitmsg s1)
   else if (sc0 <? 0)%Z then shutdown_abort s1
   else
   rdo (r, s2) <- banner_loop (S (avail s1)) sc0 false s1;
   let '(sc, flagerr) := r in
-  if Z.eqb sc (neg ST_ECONNRESET) then Ret false (connection_died s2)
+  if Z.eqb sc (neg ST_ECONNRESET) then Ret None (connection_died s2)
   else if negb (Z.eqb sc ST_GREETING_OK) || flagerr then next (quitmsg_if_net sc s2)
   else
   rdo (g, s3) <- greeting s2;
@@ -493,11 +476,10 @@ Definition conn_iter (k : nat) (c : conn) (tlsa : list (N * Z)) (s : st) : res b
     else
       rdo (g2, s5) <- greeting s4;
       if (g2 <? 0)%Z then next (quitmsg_if_net g2 s5)
-      else Ret true (log (EvMail (s_ssl s5) (Z.to_N g2)) s5)
+      else Ret (Some g2) s5
   else if s_xtls s3 then next (quitmsg s3)
   else if Nat.ltb 0 (length tlsa) then next (quitmsg s3)
-  else if ST_PINNED_NEEDS_TLS && pinned c then next (quitmsg s3)
-  else Ret true (log (EvMail (s_ssl s3) (Z.to_N g)) s3).
+  else Ret (Some g) s3.
 
 (** whose TLSA records connect_mx() works with, whatever MX it talks to: dnstlsa(mx->name) is
     asked before tryconn() picks the host, and [mx] is the head of the list (the translator
@@ -510,13 +492,16 @@ Definition tlsa_eff (conns : list conn) : list (N * Z) :=
 Definition asks_tlsa (conns : list conn) : bool :=
   match conns with h :: _ => c_named h | [] => false end.
 
-Fixpoint connect_mx (all : list conn) (k : nat) (todo : list conn) (s : st) : res bool :=
+Fixpoint connect_mx (all : list conn) (k : nat) (todo : list conn) (s : st) : res (option (conn * Z)) :=
   let s := if asks_tlsa all then log (EvTlsa 0) s else s in
   match todo with
-  | [] => Ret false s                       (* tryconn(): -ENOENT *)
+  | [] => Ret None s                        (* tryconn(): -ENOENT *)
   | c :: todo' =>
-      rdo (ok, s1) <- conn_iter k c (tlsa_eff all) s;
-      if ok then Ret true s1 else connect_mx all (S k) todo' s1
+      rdo (r, s1) <- conn_iter k c (tlsa_eff all) s;
+      match r with
+      | Some g => Ret (Some (c, g)) s1
+      | None => connect_mx all (S k) todo' s1
+      end
   end.
 
 (* ------------------------------------------------------------------ main() around connect_mx *)
@@ -524,12 +509,17 @@ Fixpoint connect_mx (all : list conn) (k : nat) (todo : list conn) (s : st) : re
 Definition MAIL_CMD : bytes := [77; 65; 73; 76; 32; 70; 82; 79; 77; 58; 60; 62; 13; 10]%N.
 
 Definition init_st (k : tcase) : st :=
-  mkSt [] {| cur := []; future := [] |} {| cur := []; future := [] |} false false [] (k_route k) (k_route k) [] [].
+  mkSt [] false {| cur := []; future := [] |} {| cur := []; future := [] |} false false [] (k_route k) (k_route k) [] [].
 
 Definition run (k : tcase) : res unit :=
-  rdo (ok, s) <- connect_mx (k_conns k) 0 (k_conns k) (init_st k);
-  if ok then shutdown_clean (nwrite MAIL_CMD s)
-  else shutdown_abort (report ST_RPT_NOCONN s).
+  rdo (r, s) <- connect_mx (k_conns k) 0 (k_conns k) (init_st k);
+  match r with
+  | None => shutdown_abort (report ST_RPT_NOCONN s)
+  | Some (c, g) =>
+      (* a certificate in control/tlshosts, but no TLS session *)
+      if ST_PINNED_NEEDS_TLS && negb (s_ssl s) && pinned c then shutdown_clean (report ST_RPT_PINNED s)
+      else shutdown_clean (nwrite MAIL_CMD (log (EvMail (s_ssl s) (Z.to_N g)) s))
+  end.
 
 Definition final (r : res unit) : st := match r with Ret _ s => s | Exit s => s | Stuck s => s end.
 Definition trace (k : tcase) : list ev := s_tr (final (run k)).
